@@ -5,6 +5,7 @@ import (
 	"strconv"
 
 	"go.mongodb.org/mongo-driver/bson"
+	"go.mongodb.org/mongo-driver/bson/primitive"
 )
 
 // MissingType is the type of the Missing value.
@@ -274,6 +275,14 @@ func put(v interface{}, path string, value interface{}, prepend bool, set func(i
 	return Missing, false
 }
 
+func isNumber(v interface{}) bool {
+	switch v.(type) {
+	case int32, int64, float64, primitive.Decimal128:
+		return true
+	}
+	return false
+}
+
 // Increment will add the increment to the value at the location in the document
 // specified by path and return the new value. If the value is missing, the
 // increment is added to the document. The type of the field may be changed as
@@ -291,8 +300,12 @@ func Increment(doc Doc, path string, increment interface{}) (interface{}, error)
 	}
 
 	// increment field
+	operand := field
 	field = Add(field, increment)
 	if field == Missing {
+		if isNumber(operand) && isNumber(increment) {
+			return nil, fmt.Errorf("increment overflows the 64-bit integer range")
+		}
 		return nil, fmt.Errorf("incrementee or increment is not a number")
 	}
 
@@ -322,8 +335,12 @@ func Multiply(doc Doc, path string, multiplier interface{}) (interface{}, error)
 	}
 
 	// multiply
+	operand := field
 	field = Mul(field, multiplier)
 	if field == Missing {
+		if isNumber(operand) && isNumber(multiplier) {
+			return nil, fmt.Errorf("multiplication overflows the 64-bit integer range")
+		}
 		return nil, fmt.Errorf("multiplicand or multiplier is not a number")
 	}
 
